@@ -16,6 +16,8 @@ pub enum Ty {
     /// a type parameter of a generic `impl<T>` that is kept abstract: the Lean definition is polymorphic in it
     /// (values of this type can only be moved around)
     Var(String),
+    /// a pure function value (a closure parameter `F: Fn(A, B) -> R` of a helper such as `Size::map`): Lean `A → B → R`
+    Fn(Vec<Ty>, Box<Ty>),
 }
 
 impl Ty {
@@ -38,6 +40,7 @@ impl Ty {
             Ty::Adt(n, _) => n.clone(),
             Ty::Param(i) => format!("#{i}"),
             Ty::Var(v) => format!("'{v}"),
+            Ty::Fn(..) => "fn".into(),
         }
     }
     /// the abstract type variables mentioned, in order of first occurrence
@@ -50,7 +53,61 @@ impl Ty {
             }
             Ty::Opt(t) | Ty::List(t) => t.vars(out),
             Ty::Tuple(v) | Ty::Adt(_, v) => v.iter().for_each(|t| t.vars(out)),
+            Ty::Fn(a, r) => {
+                a.iter().for_each(|t| t.vars(out));
+                r.vars(out)
+            }
             _ => {}
+        }
+    }
+    /// the type as an expectation: what is still an abstract variable is not known yet
+    pub fn vars_to_unknown(&self) -> Ty {
+        match self {
+            Ty::Var(_) => Ty::Unknown,
+            Ty::Opt(t) => Ty::Opt(Box::new(t.vars_to_unknown())),
+            Ty::List(t) => Ty::List(Box::new(t.vars_to_unknown())),
+            Ty::Tuple(v) => Ty::Tuple(v.iter().map(|t| t.vars_to_unknown()).collect()),
+            Ty::Adt(n, v) => Ty::Adt(n.clone(), v.iter().map(|t| t.vars_to_unknown()).collect()),
+            Ty::Fn(a, r) => Ty::Fn(a.iter().map(|t| t.vars_to_unknown()).collect(), Box::new(r.vars_to_unknown())),
+            t => t.clone(),
+        }
+    }
+    /// match a declared type mentioning abstract type variables against an actual one, extending the instantiation `s`
+    /// (`Unknown` on either side matches anything); false when the two cannot be made equal
+    pub fn unify(&self, actual: &Ty, s: &mut HashMap<String, Ty>) -> bool {
+        match (self, actual) {
+            (Ty::Var(v), a) => match s.get(v).cloned() {
+                Some(t) => {
+                    if t.compatible(a) {
+                        s.insert(v.clone(), t.join(a));
+                        true
+                    } else {
+                        false
+                    }
+                }
+                None => {
+                    s.insert(v.clone(), a.clone());
+                    true
+                }
+            },
+            (Ty::Unknown, _) | (_, Ty::Unknown) => true,
+            (Ty::Opt(a), Ty::Opt(b)) | (Ty::List(a), Ty::List(b)) => a.unify(b, s),
+            (Ty::Tuple(a), Ty::Tuple(b)) => a.len() == b.len() && a.iter().zip(b).all(|(x, y)| x.unify(y, s)),
+            (Ty::Adt(n, a), Ty::Adt(m, b)) => n == m && a.len() == b.len() && a.iter().zip(b).all(|(x, y)| x.unify(y, s)),
+            (Ty::Fn(a, r), Ty::Fn(b, q)) => a.len() == b.len() && a.iter().zip(b).all(|(x, y)| x.unify(y, s)) && r.unify(q, s),
+            (a, b) => a == b,
+        }
+    }
+    /// instantiate the abstract type variables
+    pub fn subst_vars(&self, s: &HashMap<String, Ty>) -> Ty {
+        match self {
+            Ty::Var(v) => s.get(v).cloned().unwrap_or_else(|| self.clone()),
+            Ty::Opt(t) => Ty::Opt(Box::new(t.subst_vars(s))),
+            Ty::List(t) => Ty::List(Box::new(t.subst_vars(s))),
+            Ty::Tuple(v) => Ty::Tuple(v.iter().map(|t| t.subst_vars(s)).collect()),
+            Ty::Adt(n, v) => Ty::Adt(n.clone(), v.iter().map(|t| t.subst_vars(s)).collect()),
+            Ty::Fn(a, r) => Ty::Fn(a.iter().map(|t| t.subst_vars(s)).collect(), Box::new(r.subst_vars(s))),
+            t => t.clone(),
         }
     }
     pub fn has_unknown(&self) -> bool {
@@ -58,6 +115,7 @@ impl Ty {
             Ty::Unknown | Ty::Param(_) => true,
             Ty::Opt(t) | Ty::List(t) => t.has_unknown(),
             Ty::Tuple(v) | Ty::Adt(_, v) => v.iter().any(|t| t.has_unknown()),
+            Ty::Fn(a, r) => a.iter().any(|t| t.has_unknown()) || r.has_unknown(),
             _ => false,
         }
     }
@@ -68,6 +126,7 @@ impl Ty {
             (Ty::Opt(a), Ty::Opt(b)) | (Ty::List(a), Ty::List(b)) => a.compatible(b),
             (Ty::Tuple(a), Ty::Tuple(b)) => a.len() == b.len() && a.iter().zip(b).all(|(x, y)| x.compatible(y)),
             (Ty::Adt(n, a), Ty::Adt(m, b)) => n == m && a.len() == b.len() && a.iter().zip(b).all(|(x, y)| x.compatible(y)),
+            (Ty::Fn(a, r), Ty::Fn(b, q)) => a.len() == b.len() && a.iter().zip(b).all(|(x, y)| x.compatible(y)) && r.compatible(q),
             (a, b) => a == b,
         }
     }
@@ -79,6 +138,7 @@ impl Ty {
             (Ty::List(a), Ty::List(b)) => Ty::List(Box::new(a.join(b))),
             (Ty::Tuple(a), Ty::Tuple(b)) if a.len() == b.len() => Ty::Tuple(a.iter().zip(b).map(|(x, y)| x.join(y)).collect()),
             (Ty::Adt(n, a), Ty::Adt(m, b)) if n == m && a.len() == b.len() => Ty::Adt(n.clone(), a.iter().zip(b).map(|(x, y)| x.join(y)).collect()),
+            (Ty::Fn(a, r), Ty::Fn(b, q)) if a.len() == b.len() => Ty::Fn(a.iter().zip(b).map(|(x, y)| x.join(y)).collect(), Box::new(r.join(q))),
             (a, _) => a.clone(),
         }
     }
@@ -89,6 +149,7 @@ impl Ty {
             Ty::List(t) => Ty::List(Box::new(t.subst(args))),
             Ty::Tuple(v) => Ty::Tuple(v.iter().map(|t| t.subst(args)).collect()),
             Ty::Adt(n, v) => Ty::Adt(n.clone(), v.iter().map(|t| t.subst(args)).collect()),
+            Ty::Fn(a, r) => Ty::Fn(a.iter().map(|t| t.subst(args)).collect(), Box::new(r.subst(args))),
             t => t.clone(),
         }
     }
@@ -154,6 +215,9 @@ pub struct FnSig {
     pub dropped: usize,
     /// free function whose first parameter is `&mut T` and which returns `()`: the Lean function returns the updated first argument
     pub mut_first: bool,
+    /// translated in interaction form: the Lean function returns an interaction program (`ret` is the Rust return type);
+    /// callable only from a function translated over the same program type, as a bind
+    pub prog: bool,
 }
 
 pub struct World {
@@ -165,6 +229,8 @@ pub struct World {
     pub adts: Vec<Adt>,
     pub fns: HashMap<(String, String), Vec<FnSig>>,
     pub consts: HashMap<(String, String), (String, Ty, bool)>,
+    /// the query type of the tree traits (set by `treemod`): functions with a `tree` parameter are translated over it
+    pub tree_plan: Option<crate::emit::ProgPlan>,
 }
 
 fn snake_to_camel(s: &str) -> String {
@@ -211,7 +277,7 @@ fn lean_member(name: &str) -> String {
 
 impl World {
     pub fn new() -> World {
-        let mut w = World { length_ctors_checked: false, aliases: HashMap::new(), adts: vec![], fns: HashMap::new(), consts: HashMap::new() };
+        let mut w = World { length_ctors_checked: false, aliases: HashMap::new(), adts: vec![], fns: HashMap::new(), consts: HashMap::new(), tree_plan: None };
         let p0 = Ty::Param(0);
         let f = Ty::F32;
         let of = Ty::opt(Ty::F32);
@@ -424,6 +490,7 @@ impl World {
             Ty::Opt(t) => format!("(Option {})", self.lean_ty(t)),
             Ty::List(t) => format!("(List {})", self.lean_ty(t)),
             Ty::Tuple(v) => format!("({})", v.iter().map(|t| self.lean_ty(t)).collect::<Vec<_>>().join(" × ")),
+            Ty::Fn(a, r) => format!("({})", a.iter().chain(std::iter::once(&**r)).map(|t| self.lean_ty(t)).collect::<Vec<_>>().join(" → ")),
             Ty::Adt(n, args) => {
                 let a = self.adt(n).expect("unknown adt");
                 let mut s = a.lean.clone();
@@ -447,6 +514,7 @@ impl World {
             Ty::F32 => true,
             Ty::Opt(t) | Ty::List(t) => self.mentions_alpha(t),
             Ty::Tuple(v) => v.iter().any(|t| self.mentions_alpha(t)),
+            Ty::Fn(a, r) => a.iter().any(|t| self.mentions_alpha(t)) || self.mentions_alpha(r),
             Ty::Adt(n, v) => self.adt(n).map(|a| a.alpha).unwrap_or(false) || v.iter().any(|t| self.mentions_alpha(t)),
             _ => false,
         }
@@ -553,7 +621,8 @@ impl L {
             }
             L::Match(sc, arms) => {
                 let i = if top { ind } else { ind + 1 };
-                let scs: Vec<String> = sc.iter().map(|s| s.render(i + 6, true)).collect();
+                // a `match` / `if` / `let` in scrutinee position is parenthesised
+                let scs: Vec<String> = sc.iter().map(|s| s.render(i + 6, !matches!(s, L::Match(..) | L::If(..) | L::Let(..)))).collect();
                 let mut s = format!("match {} with", scs.join(", "));
                 for (ps, body) in arms {
                     s.push_str(&format!("\n{}| {} =>", pad(i), ps.join(", ")));
